@@ -1,8 +1,665 @@
-//! C11 — not implemented yet.
+//! C11 — typed inputs and outputs: conforming values pass unchanged, others become null.
+//!
+//! Implementation: generated models — item definitions (simple types with/without allowed
+//! values, referenced, component, collection-of each, depth ≤ 3), an input data `X` of the type
+//! and a decision `D` that echoes `X` (so the decision result shows what reached the logic);
+//! decisions `O` with a typed output variable whose logic is a literal value (output coercion);
+//! every typeRef / components / isCollection combination (classification).  All through
+//! `dmntk_model::parse → ModelEvaluator::new → evaluate_invocable`.
+//! Model: `Dmn.ID.varCheck`, `Dmn.ID.coerceOutput`, `Dmn.ID.classify`; specification:
+//! `Dmn.ID.Spec.varProject` (all through the driver).
 
-use crate::report::Report;
+use crate::c03::{value_sexp, xml_escape};
+use crate::model::Model;
+use crate::report::{Kind, Report};
+use crate::rng::Rng;
+use crate::sexp::Sexp;
+use crate::util::guarded;
 use crate::Cfg;
+use dmntk_feel::context::FeelContext;
+use dmntk_feel::values::Value;
+use dmntk_feel::Scope;
+use dmntk_model_evaluator::ModelEvaluator;
+use serde_json::json;
 
-pub fn run(_cfg: &Cfg) -> Report {
-  Report::new("C11", "not implemented")
+const SIMPLE: [(&str, &str); 8] = [
+  ("string", "string"),
+  ("number", "number"),
+  ("boolean", "boolean"),
+  ("date", "date"),
+  ("time", "time"),
+  ("dateTime", "dateTime"),
+  ("dtDur", "dayTimeDuration"),
+  ("ymDur", "yearMonthDuration"),
+];
+
+/// Literals (FEEL text) of each simple type.
+fn lits(t: usize) -> Vec<&'static str> {
+  match t {
+    0 => vec!["\"a\"", "\"b\"", "\"c\""],
+    1 => vec!["1", "2", "3"],
+    2 => vec!["true", "false"],
+    3 => vec!["date(\"2020-01-01\")", "date(\"2020-01-02\")", "date(\"2021-06-30\")"],
+    4 => vec!["time(\"10:00:00\")", "time(\"11:30:00\")", "time(\"23:59:59\")"],
+    5 => vec!["date and time(\"2020-01-01T10:00:00\")", "date and time(\"2020-01-02T11:30:00\")", "date and time(\"2021-06-30T00:00:00\")"],
+    6 => vec!["duration(\"P1D\")", "duration(\"PT2H\")", "duration(\"P3DT4H\")"],
+    _ => vec!["duration(\"P1Y\")", "duration(\"P2M\")", "duration(\"P1Y6M\")"],
+  }
+}
+
+#[derive(Clone, Debug)]
+enum Av {
+  None,
+  /// the first `n` literals of the type
+  Lits(usize, usize),
+  Cmp(&'static str, i64),
+}
+
+#[derive(Clone, Debug)]
+enum Item {
+  Simple(usize, Av),
+  Ref(String, Av),
+  Comp(Vec<(String, Item)>, Av),
+  CollSimple(usize, Av),
+  CollRef(String, Av),
+  CollComp(Vec<(String, Item)>, Av),
+}
+
+fn eval(text: &str) -> Value {
+  let s = Scope::default();
+  match dmntk_feel_parser::parse_expression(&s, text, false).ok().and_then(|n| dmntk_feel_evaluator::evaluate(&s, &n).ok()) {
+    Some(v) => v,
+    None => Value::Null(None),
+  }
+}
+
+impl Av {
+  fn sexp(&self) -> Sexp {
+    match self {
+      Av::None => Sexp::atom("none"),
+      Av::Lits(t, n) => Sexp::tagged("lits", lits(*t).iter().take(*n).map(|l| value_sexp(&eval(l)).unwrap_or(Sexp::atom("null"))).collect()),
+      Av::Cmp(op, n) => Sexp::tagged("cmp", vec![Sexp::atom(*op), Sexp::int(*n)]),
+    }
+  }
+  fn xml(&self) -> String {
+    let text = match self {
+      Av::None => return String::new(),
+      Av::Lits(t, n) => lits(*t).iter().take(*n).cloned().collect::<Vec<_>>().join(","),
+      Av::Cmp(op, n) => format!(
+        "{} {}",
+        match *op {
+          "lt" => "<",
+          "le" => "<=",
+          "gt" => ">",
+          _ => ">=",
+        },
+        n
+      ),
+    };
+    format!("<allowedValues><text>{}</text></allowedValues>", xml_escape(&text))
+  }
+}
+
+impl Item {
+  fn sexp(&self) -> Sexp {
+    let comps = |cs: &Vec<(String, Item)>| Sexp::list(cs.iter().map(|(n, i)| Sexp::list(vec![Sexp::str(n), i.sexp()])).collect());
+    match self {
+      Item::Simple(t, av) => Sexp::tagged("simple", vec![Sexp::atom(SIMPLE[*t].0), av.sexp()]),
+      Item::Ref(n, av) => Sexp::tagged("ref", vec![Sexp::str(n), av.sexp()]),
+      Item::Comp(cs, av) => Sexp::tagged("comp", vec![comps(cs), av.sexp()]),
+      Item::CollSimple(t, av) => Sexp::tagged("collSimple", vec![Sexp::atom(SIMPLE[*t].0), av.sexp()]),
+      Item::CollRef(n, av) => Sexp::tagged("collRef", vec![Sexp::str(n), av.sexp()]),
+      Item::CollComp(cs, av) => Sexp::tagged("collComp", vec![comps(cs), av.sexp()]),
+    }
+  }
+  /// `<itemDefinition name=…>` (top level) or `<itemComponent name=…>`.
+  fn xml(&self, tag: &str, name: &str) -> String {
+    let (coll, inner) = match self {
+      Item::Simple(t, av) => (false, format!("<typeRef>{}</typeRef>{}", SIMPLE[*t].1, av.xml())),
+      Item::CollSimple(t, av) => (true, format!("<typeRef>{}</typeRef>{}", SIMPLE[*t].1, av.xml())),
+      Item::Ref(n, av) => (false, format!("<typeRef>{}</typeRef>{}", n, av.xml())),
+      Item::CollRef(n, av) => (true, format!("<typeRef>{}</typeRef>{}", n, av.xml())),
+      Item::Comp(cs, av) => (false, format!("{}{}", av.xml(), cs.iter().map(|(n, i)| i.xml("itemComponent", n)).collect::<String>())),
+      Item::CollComp(cs, av) => (true, format!("{}{}", av.xml(), cs.iter().map(|(n, i)| i.xml("itemComponent", n)).collect::<String>())),
+    };
+    format!("<{} name=\"{}\"{}>{}</{}>", tag, name, if coll { " isCollection=\"true\"" } else { "" }, inner, tag)
+  }
+}
+
+type Defs = Vec<(String, Item)>;
+
+fn defs_sexp(defs: &Defs) -> Sexp {
+  Sexp::list(defs.iter().map(|(n, i)| Sexp::list(vec![Sexp::str(n), i.sexp()])).collect())
+}
+
+fn defs_xml(defs: &Defs) -> String {
+  defs.iter().map(|(n, i)| i.xml("itemDefinition", n)).collect()
+}
+
+const HEAD: &str = r#"<?xml version="1.0" encoding="UTF-8"?><definitions namespace="ns" name="m" id="_m" xmlns="https://www.omg.org/spec/DMN/20191111/MODEL/">"#;
+
+/// Model whose decision `D` echoes its input `X` of type `type_ref`.
+fn echo_model(defs: &Defs, type_ref: &str) -> String {
+  format!(
+    r##"{}{}<decision name="D" id="_d"><variable name="D"/><informationRequirement id="_r"><requiredInput href="#_x"/></informationRequirement><literalExpression><text>X</text></literalExpression></decision><inputData name="X" id="_x"><variable name="X" typeRef="{}"/></inputData></definitions>"##,
+    HEAD,
+    defs_xml(defs),
+    type_ref
+  )
+}
+
+/// Model whose decision `O` has a typed output variable and a literal value as logic.
+fn output_model(defs: &Defs, type_ref: Option<&str>, value: &str) -> String {
+  format!(
+    r##"{}{}<decision name="O" id="_o"><variable name="O"{}/><literalExpression><text>{}</text></literalExpression></decision></definitions>"##,
+    HEAD,
+    defs_xml(defs),
+    match type_ref {
+      Some(t) => format!(" typeRef=\"{}\"", t),
+      None => String::new(),
+    },
+    xml_escape(value)
+  )
+}
+
+/// The value kinds of the matrix (FEEL text).
+fn value_kinds() -> Vec<&'static str> {
+  vec![
+    "null",
+    "true",
+    "2",
+    "7",
+    "\"a\"",
+    "\"z\"",
+    "date(\"2020-01-01\")",
+    "time(\"10:00:00\")",
+    "date and time(\"2020-01-01T10:00:00\")",
+    "duration(\"P1D\")",
+    "duration(\"P1Y\")",
+    "[]",
+    "{}",
+    "{a: 1}",
+  ]
+}
+
+/// A value (FEEL text) that conforms to the item definition, when there is one.
+fn conforming(item: &Item, defs: &Defs, rng: &mut Rng, depth: usize) -> String {
+  let pick_lit = |t: usize, av: &Av, rng: &mut Rng| -> String {
+    match av {
+      Av::Lits(_, n) => lits(t)[rng.below(*n as u64) as usize].to_string(),
+      Av::Cmp(op, n) => format!("{}", if *op == "lt" || *op == "le" { n - 1 } else { n + 1 }),
+      Av::None => rng.pick(&lits(t)).to_string(),
+    }
+  };
+  let comps = |cs: &Vec<(String, Item)>, rng: &mut Rng| -> String { format!("{{{}}}", cs.iter().map(|(n, i)| format!("{}: {}", n, conforming(i, defs, rng, depth + 1))).collect::<Vec<_>>().join(", ")) };
+  match item {
+    Item::Simple(t, av) => pick_lit(*t, av, rng),
+    Item::CollSimple(t, _) => {
+      let n = rng.below(3);
+      format!("[{}]", (0..n).map(|_| rng.pick(&lits(*t)).to_string()).collect::<Vec<_>>().join(", "))
+    }
+    Item::Ref(n, _) => match defs.iter().find(|d| &d.0 == n) {
+      Some((_, i)) if depth < 6 => conforming(i, defs, rng, depth + 1),
+      _ => "null".to_string(),
+    },
+    Item::CollRef(n, _) => match defs.iter().find(|d| &d.0 == n) {
+      Some((_, i)) if depth < 6 => {
+        let k = rng.below(3);
+        format!("[{}]", (0..k).map(|_| conforming(i, defs, rng, depth + 1)).collect::<Vec<_>>().join(", "))
+      }
+      _ => "[]".to_string(),
+    },
+    Item::Comp(cs, _) => comps(cs, rng),
+    Item::CollComp(cs, _) => {
+      let k = rng.below(3);
+      format!("[{}]", (0..k).map(|_| comps(cs, rng)).collect::<Vec<_>>().join(", "))
+    }
+  }
+}
+
+/// Replaces one randomly chosen sub-value (at any position of the text's bracket structure)
+/// by a value of another kind.
+fn violate(text: &str, rng: &mut Rng) -> String {
+  // positions where a value starts: after '[', ',', ':' or at 0 (outside strings)
+  let b = text.as_bytes();
+  let mut starts = vec![0usize];
+  let mut in_str = false;
+  for (i, c) in b.iter().enumerate() {
+    if *c == b'"' {
+      in_str = !in_str;
+    }
+    if !in_str && (*c == b'[' || *c == b',' || *c == b':') {
+      let mut j = i + 1;
+      while j < b.len() && b[j] == b' ' {
+        j += 1;
+      }
+      if j < b.len() && b[j] != b']' && b[j] != b'}' {
+        starts.push(j);
+      }
+    }
+  }
+  let s = *rng.pick(&starts);
+  // the value ends at the matching ',' / ']' / '}' at depth 0
+  let mut depth = 0i32;
+  let mut e = s;
+  in_str = false;
+  while e < b.len() {
+    let c = b[e];
+    if c == b'"' {
+      in_str = !in_str;
+    }
+    if !in_str {
+      if c == b'[' || c == b'{' || c == b'(' {
+        depth += 1;
+      }
+      if c == b']' || c == b'}' || c == b')' {
+        if depth == 0 {
+          break;
+        }
+        depth -= 1;
+      }
+      if c == b',' && depth == 0 {
+        break;
+      }
+    }
+    e += 1;
+  }
+  let rep = *rng.pick(&value_kinds());
+  format!("{}{}{}", &text[..s], rep, &text[e..])
+}
+
+fn gen_av(t: usize, rng: &mut Rng) -> Av {
+  match rng.below(5) {
+    0 | 1 => Av::Lits(t, 1 + rng.below(2) as usize),
+    2 if t == 1 => Av::Cmp(*rng.pick(&["lt", "le", "gt", "ge"]), 2),
+    _ => Av::None,
+  }
+}
+
+fn gen_item(rng: &mut Rng, defs: &Defs, depth: usize) -> Item {
+  let k = rng.below(if depth >= 2 { 4 } else { 8 });
+  let t = rng.below(8) as usize;
+  let comps = |rng: &mut Rng| -> Vec<(String, Item)> {
+    let n = 1 + rng.below(3) as usize;
+    // declaration order need not be key order
+    let names = if rng.chance(1, 2) { ["a", "b", "c"] } else { ["c", "a", "b"] };
+    (0..n).map(|i| (names[i].to_string(), gen_item(rng, defs, depth + 1))).collect()
+  };
+  match k {
+    0 | 1 => Item::Simple(t, gen_av(t, rng)),
+    2 => Item::CollSimple(t, if rng.chance(1, 4) { Av::Lits(t, 2) } else { Av::None }),
+    3 | 4 if !defs.is_empty() => {
+      let n = rng.pick(defs).0.clone();
+      let av = if rng.chance(1, 4) { Av::Lits(t, 2) } else { Av::None };
+      if k == 3 {
+        Item::Ref(n, av)
+      } else {
+        Item::CollRef(n, av)
+      }
+    }
+    3 | 4 => Item::Simple(t, Av::None),
+    5 | 6 => Item::Comp(comps(rng), if rng.chance(1, 10) { Av::Lits(1, 2) } else { Av::None }),
+    _ => Item::CollComp(comps(rng), Av::None),
+  }
+}
+
+/// A generated model with item definitions and an echo decision (used by C12 as a base for
+/// fault enumeration).
+pub fn sample_model_xml(rng: &mut Rng) -> String {
+  let mut defs: Defs = vec![];
+  let n_defs = 1 + rng.below(3) as usize;
+  for k in 0..n_defs {
+    let it = gen_item(rng, &defs, 0);
+    defs.push((format!("t{}", k), it));
+  }
+  let top = defs.last().unwrap().0.clone();
+  echo_model(&defs, &top)
+}
+
+struct Case {
+  family: &'static str,
+  req: String,
+  xml: String,
+  value: String,
+  obs: String,
+}
+
+pub fn run(cfg: &Cfg) -> Report {
+  let mut rep = Report::new(
+    "C11",
+    "generated models: (matrix) 8 simple types × {simple, collection, referenced, collection-of-referenced} × {with, without allowed values} × 14 value kinds × {bare, [v], [conforming, v], {a: v}} at top level, inside a component, inside a collection of components and inside a component of a component; (random) item-definition trees of depth ≤ 3 with conforming values and values violated at one random position; (output) typed decision outputs; (classify) all typeRef/components/isCollection combinations. Non-trivial: the declared type is not `Any` and the value is not absent; distinct by (model XML, value).",
+  );
+  let thorough = cfg.tier == "thorough";
+  let mut rng = Rng::new(cfg.seed);
+  let mut cases: Vec<Case> = vec![];
+
+  // evaluates a batch of values against one echo model
+  let mut run_echo = |family: &'static str, defs: &Defs, type_ref: &str, vartype: Sexp, values: &[String], cases: &mut Vec<Case>, rep: &mut Report| {
+    let xml = echo_model(defs, type_ref);
+    let built = guarded(|| match dmntk_model::parse(&xml) {
+      Ok(d) => ModelEvaluator::new(&d).map_err(|e| e.to_string()),
+      Err(e) => Err(e.to_string()),
+    });
+    let me = match built {
+      Ok(Ok(m)) => m,
+      Ok(Err(e)) => {
+        rep.disagree(Kind::ImplVsModel, family, "a generated model does not load", &xml, &e, "a built model");
+        return;
+      }
+      Err(p) => {
+        rep.disagree(Kind::ImplVsSpec, family, "panic while loading a generated model", &xml, &p, "a built model");
+        return;
+      }
+    };
+    for v in values {
+      let (ctx, vs): (FeelContext, Sexp) = if v == "absent" {
+        (FeelContext::default(), Sexp::atom("absent"))
+      } else {
+        let val = eval(v);
+        let sx = match value_sexp(&val) {
+          Some(s) => s,
+          None => continue,
+        };
+        let mut c = FeelContext::default();
+        c.set_entry(&"X".into(), val);
+        (c, sx)
+      };
+      let obs = match guarded(|| me.evaluate_invocable("D", &ctx)) {
+        Ok(r) => value_sexp(&r).map(|s| s.to_string()).unwrap_or_else(|| format!("(unsupported {})", r)),
+        Err(p) => format!("(panic {})", p.replace(' ', "_")),
+      };
+      let req = Sexp::list(vec![Sexp::atom("c11"), Sexp::atom("input"), defs_sexp(defs), Sexp::str("X"), vartype.clone(), vs]).to_string();
+      cases.push(Case { family, req, xml: xml.clone(), value: v.clone(), obs });
+    }
+  };
+
+  // ---- the matrix
+  for t in 0..8usize {
+    for with_av in [false, true] {
+      let av = if with_av { Av::Lits(t, 2) } else { Av::None };
+      // the four variants of the declared type, as top-level definition `tV`
+      let variants: Vec<(&str, Defs)> = vec![
+        ("simple", vec![("tV".into(), Item::Simple(t, av.clone()))]),
+        ("collection", vec![("tV".into(), Item::CollSimple(t, av.clone()))]),
+        ("referenced", vec![("tB".into(), Item::Simple(t, Av::None)), ("tV".into(), Item::Ref("tB".into(), av.clone()))]),
+        ("referenced-av-in-target", vec![("tB".into(), Item::Simple(t, av.clone())), ("tV".into(), Item::Ref("tB".into(), Av::None))]),
+        ("collection-of-referenced", vec![("tB".into(), Item::Simple(t, av.clone())), ("tV".into(), Item::CollRef("tB".into(), Av::None))]),
+      ];
+      for (vname, base) in &variants {
+        let l = lits(t);
+        let mut shapes: Vec<String> = vec!["absent".into()];
+        let mut kinds: Vec<String> = value_kinds().iter().map(|s| s.to_string()).collect();
+        kinds.extend(l.iter().map(|s| s.to_string()));
+        for v in &kinds {
+          shapes.push(v.clone());
+          shapes.push(format!("[{}]", v));
+          shapes.push(format!("[{}, {}]", l[0], v));
+          shapes.push(format!("[{}, {}]", v, l[1]));
+        }
+        // position 1: top level
+        run_echo("matrix", base, "tV", Sexp::tagged("named", vec![Sexp::str("tV")]), &shapes, &mut cases, &mut rep);
+        rep.hit(&format!("matrix {} {}", vname, if with_av { "with allowed values" } else { "without allowed values" }));
+        // position 2: inside a component; 3: inside a collection of components; 4: component of a component
+        let inner = base.last().unwrap().1.clone();
+        let mut d2 = base.clone();
+        d2.pop();
+        let mut nested: Vec<(String, Item)> = vec![
+          ("tC".into(), Item::Comp(vec![("b".into(), Item::Simple(1, Av::None)), ("a".into(), inner.clone())], Av::None)),
+          ("tL".into(), Item::CollComp(vec![("a".into(), inner.clone())], Av::None)),
+          ("tD".into(), Item::Comp(vec![("c".into(), Item::Comp(vec![("a".into(), inner.clone())], Av::None))], Av::None)),
+        ];
+        d2.append(&mut nested);
+        let sub: Vec<&String> = shapes.iter().filter(|s| *s != "absent").collect();
+        let stride = if thorough { 1 } else { 3 };
+        let v2: Vec<String> = sub.iter().step_by(stride).map(|v| format!("{{a: {}, b: 1}}", v)).chain(["{b: 1}".to_string(), "{a: 1}".to_string(), "{a: 1, b: 1, z: 1}".to_string(), "1".to_string()]).collect();
+        run_echo("matrix", &d2, "tC", Sexp::tagged("named", vec![Sexp::str("tC")]), &v2, &mut cases, &mut rep);
+        let v3: Vec<String> = sub.iter().step_by(stride).map(|v| format!("[{{a: {}}}, {{a: {}}}]", l[0], v)).chain(["[1]".to_string(), "[{}]".to_string(), "{a: 1}".to_string()]).collect();
+        run_echo("matrix", &d2, "tL", Sexp::tagged("named", vec![Sexp::str("tL")]), &v3, &mut cases, &mut rep);
+        let v4: Vec<String> = sub.iter().step_by(stride).map(|v| format!("{{c: {{a: {}}}}}", v)).chain(["{c: 1}".to_string(), "{c: {}}".to_string()]).collect();
+        run_echo("matrix", &d2, "tD", Sexp::tagged("named", vec![Sexp::str("tD")]), &v4, &mut cases, &mut rep);
+      }
+    }
+    // the built-in type named directly by the variable (the nine closures of build_variable_evaluator)
+    let mut shapes: Vec<String> = vec!["absent".into()];
+    for v in value_kinds() {
+      shapes.push(v.to_string());
+      shapes.push(format!("[{}]", v));
+    }
+    shapes.extend(lits(t).iter().map(|s| s.to_string()));
+    run_echo("variable", &vec![], SIMPLE[t].1, Sexp::tagged("simple", vec![Sexp::atom(SIMPLE[t].0)]), &shapes, &mut cases, &mut rep);
+  }
+  // a variable whose type reference names nothing
+  {
+    let shapes: Vec<String> = value_kinds().iter().map(|s| s.to_string()).collect();
+    run_echo("variable", &vec![], "tNoSuchType", Sexp::tagged("named", vec![Sexp::str("tNoSuchType")]), &shapes, &mut cases, &mut rep);
+  }
+
+  // ---- random trees
+  let n_trees = if thorough { 6000 } else { 700 };
+  for _ in 0..n_trees {
+    let mut defs: Defs = vec![];
+    let n_defs = 1 + rng.below(3) as usize;
+    for k in 0..n_defs {
+      let it = gen_item(&mut rng, &defs, 0);
+      defs.push((format!("t{}", k), it));
+    }
+    let top = defs.last().unwrap().clone();
+    let mut values = vec![];
+    for _ in 0..3 {
+      let c = conforming(&top.1, &defs, &mut rng, 0);
+      values.push(c.clone());
+      values.push(violate(&c, &mut rng));
+      values.push(violate(&violate(&c, &mut rng), &mut rng));
+    }
+    values.push(rng.pick(&value_kinds()).to_string());
+    run_echo("tree", &defs, &top.0, Sexp::tagged("named", vec![Sexp::str(&top.0)]), &values, &mut cases, &mut rep);
+  }
+
+  // ---- output coercion
+  let mut out_cases: Vec<Case> = vec![];
+  {
+    let mut run_out = |defs: &Defs, type_ref: Option<&str>, vartype: Sexp, value: &str, out_cases: &mut Vec<Case>, rep: &mut Report| {
+      let xml = output_model(defs, type_ref, value);
+      let r = guarded(|| match dmntk_model::parse(&xml) {
+        Ok(d) => match ModelEvaluator::new(&d) {
+          Ok(me) => Ok(me.evaluate_invocable("O", &FeelContext::default())),
+          Err(e) => Err(e.to_string()),
+        },
+        Err(e) => Err(e.to_string()),
+      });
+      let val = eval(value);
+      let vs = match value_sexp(&val) {
+        Some(s) => s,
+        None => return,
+      };
+      let obs = match r {
+        Ok(Ok(v)) => value_sexp(&v).map(|s| s.to_string()).unwrap_or_else(|| format!("(unsupported {})", v)),
+        Ok(Err(e)) => {
+          rep.disagree(Kind::ImplVsModel, "output", "a generated model does not load", &xml, &e, "a built model");
+          return;
+        }
+        Err(p) => format!("(panic {})", p.replace(' ', "_")),
+      };
+      let req = Sexp::list(vec![Sexp::atom("c11"), Sexp::atom("output"), defs_sexp(defs), vartype, vs]).to_string();
+      out_cases.push(Case { family: "output", req, xml, value: value.to_string(), obs });
+    };
+    for t in 0..8usize {
+      let l = lits(t);
+      let mut vals: Vec<String> = vec![];
+      for v in value_kinds().iter().map(|s| s.to_string()).chain(l.iter().map(|s| s.to_string())) {
+        vals.push(v.clone());
+        vals.push(format!("[{}]", v));
+        vals.push(format!("[[{}]]", v));
+        vals.push(format!("[{}, {}]", l[0], v));
+      }
+      let stride = if thorough { 1 } else { 2 };
+      let defs: Defs = vec![
+        ("tS".into(), Item::Simple(t, Av::Lits(t, 1))),
+        ("tL".into(), Item::CollSimple(t, Av::None)),
+        ("tR".into(), Item::Ref("tS".into(), Av::None)),
+        ("tLR".into(), Item::CollRef("tS".into(), Av::None)),
+        ("tC".into(), Item::Comp(vec![("a".into(), Item::Simple(t, Av::None)), ("b".into(), Item::Ref("tMissing".into(), Av::None))], Av::None)),
+        ("tLC".into(), Item::CollComp(vec![("a".into(), Item::Simple(t, Av::None))], Av::None)),
+      ];
+      for v in vals.iter().step_by(stride) {
+        run_out(&vec![], Some(SIMPLE[t].1), Sexp::tagged("simple", vec![Sexp::atom(SIMPLE[t].0)]), v, &mut out_cases, &mut rep);
+        for n in ["tS", "tL", "tR", "tLR"] {
+          run_out(&defs, Some(n), Sexp::tagged("named", vec![Sexp::str(n)]), v, &mut out_cases, &mut rep);
+        }
+      }
+      for v in [format!("{{a: {}}}", l[0]), format!("{{a: {}, b: 1}}", l[0]), "{a: null}".to_string(), format!("[{{a: {}}}]", l[0]), "{}".to_string(), "1".to_string(), format!("{{a: {}, z: 2}}", l[0])] {
+        for n in ["tC", "tLC"] {
+          run_out(&defs, Some(n), Sexp::tagged("named", vec![Sexp::str(n)]), &v, &mut out_cases, &mut rep);
+        }
+      }
+    }
+    for v in value_kinds() {
+      run_out(&vec![], None, Sexp::atom("none"), v, &mut out_cases, &mut rep);
+      run_out(&vec![], Some("tNoSuchType"), Sexp::tagged("named", vec![Sexp::str("tNoSuchType")]), v, &mut out_cases, &mut rep);
+    }
+  }
+
+  // ---- classification: typeRef {absent, built-in, other} × components × isCollection
+  let mut class_reqs = vec![];
+  let mut class_obs = vec![];
+  let mut class_xml = vec![];
+  for tr in 0..3 {
+    for comps in [false, true] {
+      for coll in [false, true] {
+        let tref = match tr {
+          0 => "",
+          1 => "<typeRef>number</typeRef>",
+          _ => "<typeRef>tB</typeRef>",
+        };
+        let xml = format!(
+          r##"{}<itemDefinition name="tB"><typeRef>string</typeRef></itemDefinition><itemDefinition name="tV"{}>{}{}</itemDefinition><decision name="D" id="_d"><variable name="D"/><informationRequirement id="_r"><requiredInput href="#_x"/></informationRequirement><literalExpression><text>X</text></literalExpression></decision><inputData name="X" id="_x"><variable name="X" typeRef="tV"/></inputData></definitions>"##,
+          HEAD,
+          if coll { " isCollection=\"true\"" } else { "" },
+          tref,
+          if comps { "<itemComponent name=\"a\"><typeRef>number</typeRef></itemComponent>" } else { "" }
+        );
+        // observed kind: build error, or how the echo treats distinguishing values
+        let obs = match guarded(|| dmntk_model::parse(&xml).map_err(|e| e.to_string()).and_then(|d| ModelEvaluator::new(&d).map_err(|e| e.to_string()))) {
+          Ok(Ok(me)) => {
+            let probe = |t: &str| -> bool {
+              let mut c = FeelContext::default();
+              c.set_entry(&"X".into(), eval(t));
+              !matches!(me.evaluate_invocable("D", &c), Value::Null(_))
+            };
+            // which of: number, string, {a: 1}, [1], ["s"], [{a: 1}] pass
+            let sig: Vec<bool> = ["1", "\"s\"", "{a: 1}", "[1]", "[\"s\"]", "[{a: 1}]"].iter().map(|t| probe(t)).collect();
+            match sig.as_slice() {
+              [true, false, false, false, false, false] => "simpleType",
+              [false, true, false, false, false, false] => "referencedType",
+              [false, false, true, false, false, false] => "componentType",
+              [false, false, false, true, false, false] => "collectionOfSimpleType",
+              [false, false, false, _, true, _] => "collectionOfReferencedType",
+              [false, false, false, false, false, true] => "collectionOfComponentType",
+              _ => "unrecognised",
+            }
+            .to_string()
+          }
+          Ok(Err(_)) => "error".to_string(),
+          Err(p) => format!("panic:{}", p),
+        };
+        class_reqs.push(format!("(c11 classify {} {} {} {})", tr != 0, tr == 1, comps, coll));
+        class_obs.push(obs);
+        class_xml.push(xml);
+      }
+    }
+  }
+
+  // ---- ask the model
+  let mut model = Model::start(&cfg.driver);
+  let reqs: Vec<String> = cases.iter().map(|c| c.req.clone()).collect();
+  let answers = model.ask_batch(&reqs);
+  for (c, ans) in cases.iter().zip(answers.iter()) {
+    let key = format!("{}|{}", c.xml, c.value);
+    rep.case(&key, c.value != "absent");
+    let parsed = Sexp::parse(ans);
+    let (m, s, conf) = match parsed.as_ref().and_then(|p| p.as_list()) {
+      Some([m, s, c]) => (m.to_string(), s.to_string(), c.to_string() == "true"),
+      _ => {
+        rep.disagree(Kind::ImplVsModel, c.family, "driver-error", &c.req, &c.obs, ans);
+        continue;
+      }
+    };
+    rep.hit(&format!("{}: {}", c.family, if conf { "conforming value" } else if c.obs == "null" { "non-conforming value → null" } else { "non-conforming value → partly nulled" }));
+    let input = format!("value {} | {} | {}", c.value, c.xml, c.req);
+    if c.obs != m {
+      rep.disagree(Kind::ImplVsModel, c.family, "typed input: implementation differs from the model", &input, &c.obs, &m);
+    }
+    if c.obs != s {
+      // which known deviation the definitions contain (a referencing definition with allowed
+      // values; a collection of a referenced type)
+      let has_ref_av = {
+        let mut found = false;
+        let mut rest = c.req.as_str();
+        while let Some(p) = rest.find("(ref (s") {
+          let tail = &rest[p + 7..];
+          if let Some(q) = tail.find(')') {
+            if !tail[q + 1..].trim_start().starts_with("none") {
+              found = true;
+            }
+          }
+          rest = &rest[p + 7..];
+        }
+        found
+      };
+      let has_coll_ref = c.req.contains("(collRef ");
+      let sig = if has_coll_ref && !has_ref_av {
+        "collection of a referenced type: a non-conforming item is replaced by null inside the list instead of the list becoming null".to_string()
+      } else if has_ref_av && !has_coll_ref {
+        "allowed values of an item definition that references another item definition are ignored".to_string()
+      } else if has_ref_av && has_coll_ref {
+        "typed input: both known deviations present (referenced type with allowed values, collection of a referenced type)".to_string()
+      } else {
+        "typed input: result differs from the specification".to_string()
+      };
+      rep.disagree(Kind::ImplVsSpec, c.family, &sig, &input, &c.obs, &s);
+    }
+    // the law itself: conforming ⇒ unchanged
+    if conf {
+      let sent = value_sexp(&eval(&c.value)).map(|s| s.to_string()).unwrap_or_default();
+      if c.obs != sent {
+        let sig = "a conforming input value does not reach the decision logic unchanged";
+        rep.disagree(Kind::ImplVsSpec, c.family, sig, &input, &c.obs, &sent);
+      }
+    }
+    if c.family == "tree" && !conf && c.obs != "null" {
+      rep.sample(json!({"value": c.value, "xml": c.xml, "implementation": c.obs, "model_spec_conforms": ans}));
+    }
+  }
+  let reqs: Vec<String> = out_cases.iter().map(|c| c.req.clone()).collect();
+  let answers = model.ask_batch(&reqs);
+  for (c, ans) in out_cases.iter().zip(answers.iter()) {
+    rep.case(&format!("{}|{}", c.xml, c.value), true);
+    let m = match Sexp::parse(ans).as_ref().and_then(|p| p.as_list()) {
+      Some([m]) => m.to_string(),
+      _ => {
+        rep.disagree(Kind::ImplVsModel, c.family, "driver-error", &c.req, &c.obs, ans);
+        continue;
+      }
+    };
+    let sent = value_sexp(&eval(&c.value)).map(|s| s.to_string()).unwrap_or_default();
+    rep.hit(&format!("output: {}", if c.obs == sent { "unchanged" } else if c.obs == "null" { "null" } else if c.obs == format!("(l {})", sent) { "wrapped" } else { "unwrapped" }));
+    if c.obs != m {
+      rep.disagree(Kind::ImplVsModel, c.family, "typed output: implementation differs from the model", &format!("value {} | {} | {}", c.value, c.xml, c.req), &c.obs, &m);
+    }
+    // the law: unchanged, [v], the single item, or null
+    let ok = c.obs == sent || c.obs == "null" || c.obs == format!("(l {})", sent) || sent == format!("(l {})", c.obs);
+    if !ok {
+      rep.disagree(Kind::ImplVsSpec, c.family, "typed output is neither the value, its singleton list, its single item nor null", &format!("value {} | {}", c.value, c.xml), &c.obs, &sent);
+    }
+  }
+  let answers = model.ask_batch(&class_reqs);
+  for ((req, obs), (ans, xml)) in class_reqs.iter().zip(class_obs.iter()).zip(answers.iter().zip(class_xml.iter())) {
+    rep.case(req, true);
+    rep.hit(&format!("classify: {}", obs));
+    if obs != ans {
+      rep.disagree(Kind::ImplVsModel, "classify", "item definition classification differs from the model", &format!("{} | {}", req, xml), obs, ans);
+    }
+  }
+  rep.model_requests = model.requests;
+  rep
 }
